@@ -106,6 +106,12 @@ def cases(tier, seed, i, n):
                                 yield dict(pre=pre, sc=sc, end=end, at=at, args=APP_CLOSE_ARGS[k % len(APP_CLOSE_ARGS)],
                                            sends=sends, ct=(None, 2.0, 0)[k % 3], seg='perframe',
                                            cfault=('timeout', 'reset', 'runtime')[k % 3])
+                                # ... or is interrupted when the frame has just been written (Ctrl-C / a signal handler
+                                # that raises; the exception comes out of close()); the application closes again, as
+                                # `except KeyboardInterrupt: ws.close()` does
+                                yield dict(pre=pre, sc=sc, end=end, at=at, args=APP_CLOSE_ARGS[k % len(APP_CLOSE_ARGS)],
+                                           sends=sends, ct=(None, 2.0, 0)[k % 3], seg='perframe',
+                                           cfault=('kbint-after', 'sysexit-after')[k % 2])
         if tier == 'thorough':
             yield gen.mark('full product: server pre-sequence (<=2) x server close behaviour x end x close() event x sends')
         rnd = random.Random(seed * 6151 + 8)
@@ -164,6 +170,8 @@ def run_case(case, acc):
     if case['at'] != 'never':
         table.setdefault(case['at'], [])
         table[case['at']] = table[case['at']] + [['close'] + list(case['args'])]
+        if str(case.get('cfault', '')).endswith('-after'):
+            table[case['at']] = table[case['at']] + [['send_binary', b'right after'], ['close', 1001, 'again']]
         if case['sends'] == 'every':
             table[case['at']] = table[case['at']] + [['send_text', 'after-close'], ['send_ping', b'ac']]
     if case.get('slow'):
@@ -278,6 +286,10 @@ def judge_close_write_fault(case, run, w, acc):
     returned normally all the same, so for the application the WebSocket is closing: every later send must raise
     a WebSocketError and write nothing.  (What the connection does next is C09's business.)"""
     names = run.names
+    if run.end == 'interrupted':
+        # the injected interruption met the library's own Close (the echo of a server Close) instead of the application's
+        acc.count2('oracle', 'interruption_hit_a_library_write')
+        return
     key = monitors.grammar_violation(names, run.end == 'stop') or monitors.run_end_violation(run, w)
     if key == 'INCONCLUSIVE-budget':
         acc.inconclusive.append('budget: %r' % (case,))
@@ -289,18 +301,23 @@ def judge_close_write_fault(case, run, w, acc):
         acc.count2('oracle', 'close_write_fault_not_reached')
         return
     first = None
+    after = str(case['cfault']).endswith('-after')
     for n, c in enumerate(run.calls):
-        if c['exc_type'] is not None and not issubclass(c['exc_type'], lerrors.WebSocketError) and key is None:
+        interrupted = c['exc_type'] is not None and issubclass(c['exc_type'], (KeyboardInterrupt, SystemExit)) and c['faulted']
+        if c['exc_type'] is not None and not issubclass(c['exc_type'], lerrors.WebSocketError) and key is None and not interrupted:
             key = 'app-call-raised-non-websocket-error:%s' % c['exc_type'].__name__
         if first is None:
-            if c['name'] == 'close' and c['ok'] and c['faulted']:
+            if c['name'] == 'close' and c['faulted'] and (c['ok'] or (after and interrupted)):
                 first = n
             continue
         if c['name'] == 'close':
+            if after and c['wire'] and key is None:
+                # the Close frame of the interrupted close() is on the wire: "at most one Close frame per connection"
+                key = 'second-close-frame-written:close-interrupted-after-its-frame-was-written'
             continue
         acc.count2('oracle', 'sends_after_failed_close_write_checked')
         if (c['ok'] or c['wire']) and key is None:
-            key = 'send-accepted-after-close:close-frame-write-failed'
+            key = 'send-accepted-after-close:' + ('close-interrupted-after-its-frame-was-written' if after else 'close-frame-write-failed')
     if key:
         acc.violation(key, 'C08 %s: %s' % (key, {k: case[k] for k in ('pre', 'sc', 'end', 'at', 'sends', 'ct', 'cfault')}), case, detail)
     else:
